@@ -184,6 +184,12 @@ def step (s : St) (toks : List String) : St × String :=
          if l.length % 2 != 0 then (s, "bad-op")
          else (s, toString (Sif.Spec.C18.splitObservedOK (ps.map (fun p => (p.1 : Rat))) (ps.map (·.2))))
        | none => (s, "bad-op"))
+  | "chk" :: "c18.l1flow" :: _tag :: rest =>
+      -- rest = <pre dump> || <post dump>
+      (let i := rest.idxOf "||"
+       match parseDump (rest.take i), parseDump (rest.drop (i + 1)) with
+       | some pre, some post => (s, toString (Sif.Spec.C18.epochFlowOK pre post))
+       | _, _ => (s, "bad-op"))
   | "chk" :: "c18.l1bucket" :: _tag :: lock :: nch :: rest =>
       (match parseNat lock, parseNat nch with
        | some lock, some nch =>
